@@ -12,8 +12,8 @@ from pathlib import Path
 VERIF = Path(__file__).resolve().parent.parent
 REPO = Path(os.environ.get("VERIF_REPO", "/repo"))
 PYTHON = os.environ.get("VERIF_PYTHON", "/venv/bin/python")
-EVIDENCE_DIR = VERIF / "evidence"
-REPLAY_DIR = VERIF / "replays"
+EVIDENCE_DIR = Path(os.environ.get("VERIF_EVIDENCE_DIR", VERIF / "evidence"))
+REPLAY_DIR = Path(os.environ.get("VERIF_REPLAY_DIR", VERIF / "replays"))
 KNOWN_FILE = VERIF / "KNOWN_FINDINGS.txt"
 
 EXIT_OK = 0
@@ -123,6 +123,13 @@ def match_known(known: list[dict], prop: str, sig: str) -> dict | None:
 # --------------------------------------------------------------------------- #
 # shrinking
 # --------------------------------------------------------------------------- #
+SHRINK_DEADLINE = [float("inf")]
+
+
+def out_of_time() -> bool:
+    return time.time() > SHRINK_DEADLINE[0]
+
+
 def ddmin(items: list, fails, budget: list[int]) -> list:
     """Classic delta debugging on a list; ``fails(candidate)`` -> bool.
 
@@ -130,12 +137,12 @@ def ddmin(items: list, fails, budget: list[int]) -> list:
     """
     n = 2
     items = list(items)
-    while len(items) >= 2 and budget[0] > 0:
+    while len(items) >= 2 and budget[0] > 0 and not out_of_time():
         chunk = max(1, len(items) // n)
         subsets = [items[i : i + chunk] for i in range(0, len(items), chunk)]
         reduced = False
         for i, _ in enumerate(subsets):
-            if budget[0] <= 0:
+            if budget[0] <= 0 or out_of_time():
                 break
             complement = [x for j, s in enumerate(subsets) if j != i for x in s]
             budget[0] -= 1
@@ -148,7 +155,7 @@ def ddmin(items: list, fails, budget: list[int]) -> list:
             if n >= len(items):
                 break
             n = min(len(items), n * 2)
-    if len(items) == 1 and budget[0] > 0:
+    if len(items) == 1 and budget[0] > 0 and not out_of_time():
         budget[0] -= 1
         if fails([]):
             return []
@@ -163,10 +170,10 @@ def shrink_trace(trace: list[int], fails, budget: list[int]) -> list[int]:
         trace.pop()
     size = len(trace)
     block = max(1, size // 2)
-    while block >= 1 and budget[0] > 0:
+    while block >= 1 and budget[0] > 0 and not out_of_time():
         i = 0
         changed = False
-        while i < len(trace) and budget[0] > 0:
+        while i < len(trace) and budget[0] > 0 and not out_of_time():
             if any(trace[i : i + block]):
                 cand = trace[:i] + [0] * len(trace[i : i + block]) + trace[i + block :]
                 budget[0] -= 1
@@ -186,7 +193,7 @@ def shrink_trace(trace: list[int], fails, budget: list[int]) -> list[int]:
 # replay files and evidence
 # --------------------------------------------------------------------------- #
 def write_replay(prop: str, seed_: int, run: int, payload: dict) -> Path:
-    REPLAY_DIR.mkdir(exist_ok=True)
+    REPLAY_DIR.mkdir(exist_ok=True, parents=True)
     path = REPLAY_DIR / f"{prop}-{seed_}-{run}.json"
     payload = dict(payload)
     payload.setdefault("property", prop)
@@ -198,7 +205,7 @@ def write_replay(prop: str, seed_: int, run: int, payload: dict) -> Path:
 
 def write_evidence(prop: str, tier: str, seed_: int, coverage: dict, wall_s: float,
                    violations: int, assumptions: list[str]) -> Path:
-    EVIDENCE_DIR.mkdir(exist_ok=True)
+    EVIDENCE_DIR.mkdir(exist_ok=True, parents=True)
     doc = {
         "property_id": prop,
         "tier": tier,
